@@ -19,14 +19,17 @@ RULE = ("one case = one partition on a real single-node ClusterActor X (replicat
         "writes, stale coordinator_alive_since, missing expected sequence, a foreign coordinator ref, database-rejected writes, the node's own "
         "failed-coordinator appends, ConfirmTransaction good / wrong id / too few ids / unknown / wrong sequence, duplicates), sync (Y behind or "
         "diverged by its own unconfirmed append, restarted or not; its real catch-up timer pulls from X whose confirmed prefix grows), exec "
-        "(ExecuteTransaction end to end; succeeds for rf=1), restart (ResetCluster in the middle). Logs of both nodes are snapshotted after "
+        "(ExecuteTransaction end to end; succeeds for rf=1), restart (ResetCluster in the middle), co (two real coordinators A1, A2 = transaction::spawn on "
+        "their own databases with X as the one replica; logs level / behind / ahead of X; replies Ok, StaleWrite, SequenceConflict, none (10 s time-out); rf 2,3 reach "
+        "a quorum, rf 4,5 never; 24 cases per rf 2,3 quick / 200 thorough). Logs of both nodes are snapshotted after "
         "barriers; after a final restart the number of events X's ReadPartition shows is recorded. quick ~ 60 cases per rf, thorough ~ 500. "
         "non-trivial = a case in which a replicated write was applied; distinct = distinct case strings.")
 ASSUMPTIONS = [
-    "Model/Replication.v is hand-written from transaction.rs, execute.rs, replicate.rs, confirm.rs, validate_partition_sequence (after fix 28b51ee); tie = this differential run (replica side, catch-up, rf=1 coordinator) + source pins (coordinator with remote replicas)",
+    "Model/Replication.v is hand-written from transaction.rs, execute.rs, replicate.rs, confirm.rs, validate_partition_sequence (after fix 28b51ee); tie = this differential run (replica side, catch-up, rf=1 coordinator, coordinators with one real replica) + source pins (several remote replicas, routing)",
     "static configuration is the same on every node (replica set of the partition, replication factor); a node is its configured index; only the view of which replicas are alive diverges",
     "transaction ids are fresh per client request (Uuid v4) and a forwarded ExecuteTransaction is not duplicated",
     "set_confirmations is all-or-nothing per transaction; a torn write of counts is not modelled (C05/C06 cover the storage layer)",
+    "family co: the two coordinators are plain databases running transaction::spawn with the real node as their only replica and the real node's member identity as theirs; for rf >= 4 the model adds a replica that never answers (one replica cannot make a quorum either way)",
     "the in-memory watermark is any value not beyond the confirmed prefix of the disk (C08); in the executed runs it is compared after a restart",
 ]
 TRUSTED = ["source pins: sha256 of the whitespace/comment-normalised text of the pinned functions (checks/c10.py PINS)"]
@@ -44,6 +47,76 @@ def _log(s):
 
 def _strip(o):
     return re.sub(r"~[0-9.]+", "", o)
+
+def parse_co(c, o):
+    """family co: logs of X (replica), A1, A2 (coordinators)"""
+    t = c.split()
+    rf = int(t[1])
+    ops = [x.split(",") for x in t[5:]]
+    m = re.match(r"res=(\S*) X=(\S+) A1=(\S+) A2=(\S+)$", o)
+    if not m: return None
+    toks = m.group(1).split(";") if m.group(1) else []
+    if len(toks) != len(ops): return None
+    snaps = []
+    for op, tk in zip(ops, toks):
+        if op[0] == "b":
+            mm = re.match(r"X\[(.*)\]A\[(.*)\]B\[(.*)\]$", tk)
+            if not mm: return None
+            snaps.append(tuple(_log(mm.group(i)) for i in (1, 2, 3)))
+    snaps.append(tuple(_log(m.group(i)) for i in (2, 3, 4)))
+    return dict(rf=rf, q=rf // 2 + 1, n0=(int(t[2]), int(t[3]), int(t[4])), ops=ops, toks=toks, snaps=snaps)
+
+def _mon_co(c, o):
+    p = parse_co(c, o)
+    if p is None: return ("malformed", f"cannot read the observation {o[:200]!r}")
+    q, ops, toks = p["q"], p["ops"], p["toks"]
+    names = ("X", "A1", "A2")
+    # every snapshot: gap-free logs
+    for si, sn in enumerate(p["snaps"]):
+        for name, log in zip(names, sn):
+            pos = 0
+            for (f, tx, k, cs) in log:
+                if f != pos or k < 1: return ("log-gap", f"snapshot {si}: {name}'s log has an entry at {f} where {pos} is next: {log}")
+                pos += k
+    # across snapshots: nothing replaced or rolled back, counts only rise
+    for ni, name in enumerate(names):
+        prev = None
+        for si, sn in enumerate(p["snaps"]):
+            log = sn[ni]
+            if prev is not None:
+                if len(log) < len(prev): return ("rolled-back", f"{name}'s log shrank: {prev} -> {log}")
+                for a, b in zip(prev, log):
+                    if a[:3] != b[:3]: return ("replaced", f"{name}: the entry {a[:3]} became {b[:3]} (snapshot {si})")
+                    if min(b[3]) < min(a[3]): return ("count-fell", f"{name}: the count of {a[:3]} fell from {a[3]} to {b[3]}")
+            prev = log
+    # C10: across the three disks no sequence holds two different transactions that both carry a quorum count
+    for si, sn in enumerate(p["snaps"]):
+        cov = [_cover(l) or {} for l in sn]
+        for i in range(3):
+            for j in range(i + 1, 3):
+                for s in sorted(set(cov[i]) & set(cov[j])):
+                    a, b = cov[i][s], cov[j][s]
+                    if a[3] >= q and b[3] >= q and a[0] != b[0]:
+                        return ("two-confirmed", f"sequence {s} holds transaction {a[0]} on {names[i]} and {b[0]} on {names[j]}, both with a quorum count (>= {q}); "
+                                                 + " ".join(f"{n}={l}" for n, l in zip(names, sn)))
+    # C11: a client Ok only with >= q whole copies at that sequence (an error reply of the replica is no copy) and a
+    # quorum count on the coordinator, from then on
+    nb = 0
+    for op, tk in zip(ops, toks):
+        if op[0] == "b": nb += 1
+        if op[0] in ("a1", "a2") and tk.startswith("ok"):
+            s, k, ci = int(tk[2:]), int(op[2]), 1 if op[0] == "a1" else 2
+            for sn in p["snaps"][nb:]:
+                holders = [n for n, l in zip(names, sn) if any(e[0] == s and e[1] == op[1] and e[2] == k for e in l)]
+                own = [e for e in sn[ci] if e[0] == s and e[1] == op[1] and e[2] == k]
+                if not own: return ("ack-lost", f"{','.join(op)} was acknowledged at {s} but {names[ci]}'s log is {sn[ci]}")
+                if min(own[0][3]) < q: return ("ack-unconfirmed", f"{','.join(op)} was acknowledged but carries count {own[0][3]} < quorum {q} on its coordinator")
+                if len(holders) < q:
+                    return ("ack-without-quorum", f"{','.join(op)} was acknowledged at sequence {s} but only {holders} hold it there (quorum {q}): "
+                                                  + " ".join(f"{n}={l}" for n, l in zip(names, sn)))
+    m = re.search(r"(\d+:[^:,\]\s]+:\d+:[0-9.]+~[0-9.]+)", o)
+    if m: return ("stale-scan-count", f"a partition scan showed an older confirmation count than the disk holds: entry {m.group(1)} (disk~scan)")
+    return None
 
 def parse(c, o):
     t = c.split()
@@ -78,6 +151,7 @@ def _mon(c, o, prop):
         raise CheckError(f"harness could not run {c[:200]!r}: {o[:300]}")
     if o in ("BADCASE", "PANIC") or o.startswith("MODEL-EXN"):
         return ("malformed", o[:200])
+    if c.startswith("co "): return _mon_co(c, o)
     p = parse(c, o)
     if p is None: return ("malformed", f"cannot read the observation {o[:200]!r}")
     q, ops, toks = p["q"], p["ops"], p["toks"]
@@ -181,6 +255,7 @@ def monitor(c, o):
 def model_case(c): return c
 def nontrivial(c, o):
     if c == "pins": return False
+    if c.startswith("co "): return ";ok" in ";" + o.split(" ")[0].replace("res=", "")
     return bool(re.search(r"(^|;)ok\d", o.split(" ")[0].replace("res=", "")))
 def shrink_key(c): return (len(c.split()), len(c), c)
 
@@ -246,6 +321,21 @@ def distribution(pairs):
     for name, v in pin_status().items(): d["pin:" + name + (":unchanged" if v["ok"] else ":CHANGED")] = 1
     for c, o in pairs:
         if c == "pins": continue
+        if c.startswith("co "):
+            pc = None
+            try: pc = parse_co(c, o)
+            except Exception: pass
+            if not pc: d["unparsed"] += 1; continue
+            d[f"rf:{pc['rf']}"] += 1; d["family:co"] += 1
+            n0 = pc["n0"]
+            for i, nm in ((1, "A1"), (2, "A2")):
+                d["co:start:" + ("level" if n0[i] == n0[0] else "behind" if n0[i] < n0[0] else "ahead")] += 1
+            for op, tk in zip(pc["ops"], pc["toks"]):
+                if op[0] in ("a1", "a2"): d["co:write:" + re.sub(r"[0-9]+$", "", tk)] += 1
+                if op[0] == "xr": d["co:xr:" + re.sub(r"[0-9]+$", "", tk)] += 1
+            X, A1, A2 = pc["snaps"][-1]
+            if any(min(e[3]) >= pc["q"] for e in A1 + A2 if int(e[1]) < 900): d["co:coordinator-confirmed"] += 1
+            continue
         p = None
         try: p = parse(c, o)
         except Exception: pass
@@ -317,6 +407,7 @@ def agree(c, o, e):
         return all(v["ok"] for v in pin_status().values())
     o1 = _strip(o)
     if o1 == e: return True
+    if c.startswith("co "): return False
     try:
         po, pe = parse(c, o1), parse(c, e)
     except (ValueError, IndexError): return False
@@ -338,7 +429,10 @@ LEVEL_TEXT = ("Machine-checked proof (Coq) over a transition-system model of the
               "replication factor, every list of actions (client writes at any replica acting as coordinator under any membership view, "
               "messages delivered in any order any number of times or never, late replies, catch-up, confirmations, time-outs, crash/restart).")
 LEVEL_NOTE = ("PARTIAL tie. Executed against the real code: the replica side of a node (ReplicateWrite incl. sender/staleness checks and the "
-              "ordered buffer, ConfirmTransaction, serving and applying PartitionSync), crash/restart of its memory, and the rf=1 coordinator "
-              "end to end. NOT executable here (one ClusterActor per process, mDNS-only discovery): the coordinator's quorum counting with real "
-              "remote replicas and gossipsub membership divergence; those functions are tied by source pins only.")
+              "ordered buffer, ConfirmTransaction, serving and applying PartitionSync), crash/restart of its memory, the rf=1 coordinator end to "
+              "end, and (family co) the coordinator itself - transaction::spawn / run / set_confirmations_with_retry on two coordinator "
+              "databases with divergent logs, the real node answering as their replica (Ok, StaleWrite, SequenceConflict, no answer). NOT "
+              "executable here (one ClusterActor per process, mDNS-only discovery): a coordinator with MORE THAN ONE real remote replica (late "
+              "replies, the count + 1 confirmations), resolve_write_destination / forwarding under gossipsub membership divergence; those stay "
+              "tied by source pins.")
 TECHNIQUE = "Coq proof of a hand-written Gallina protocol model + differential correspondence check (extracted OCaml node handlers vs the real node) + source pins"
